@@ -8,7 +8,7 @@
 
   Where PostgreSQL's notion and pgread's differ the Spec takes PostgreSQL's (remediation R6): a template database is one
   whose `datistemplate` is set (not one whose name starts with `template`); the value of an inline-compressed or
-  out-of-line (TOASTed) datum is the ORIGINAL value (`DbContent.detoast`), not the stored bytes / a placeholder; a heap is
+  out-of-line (TOASTed) datum is the ORIGINAL value (`Comp.original` / `DbContent.detoast`), not the stored bytes / a placeholder; a heap is
   all its segment files (`Cluster.segPages`) wherever its tablespace puts them (`ClassRow.tblspc`).  The open findings
   C01-TPL, A02, C01-SEG, C01-TBLSPC of fixes/cluster/known_findings.json are exactly the clusters on which pgread's
   answer differs; the theorems of Props/C01.lean carry them as explicit hypotheses (`TemplatesByName`, `A02Free`,
@@ -139,8 +139,8 @@ structure DbContent where
   heaps : List (Nat × List (List RowV))
   /-- files of other relations (indexes, sequences, TOAST …) and raw oddities, by filenode -/
   raws : List (Nat × Bytes)
-  /-- the ORIGINAL bytes of every value that is stored compressed in line (`Datum.compressed`) or out of line in the TOAST
-  relation (`Datum.external`): what PostgreSQL hands to a query after detoasting.  How they follow from the stored bytes
+  /-- the ORIGINAL bytes of every value that is stored out of line in the TOAST relation (`Datum.external`; an
+  inline-compressed `Datum.compressed` carries its own original, `Comp.original`): what PostgreSQL hands to a query after detoasting.  How they follow from the stored bytes
   (pglz / LZ4, chunk reassembly) is C08's specification (Spec/Pglz, Spec/Lz4, Spec/Toast); here they are data of the cluster -/
   detoast : List (Datum × Bytes) := []
   /-- the database's relation map (`base/<db>/pg_filenode.map`): (catalog oid, relfilenode) for the mapped catalogs whose
@@ -512,24 +512,25 @@ def selectedRel (o : Options) (r : ClassRow) : Bool :=
 /-- the value rendering of a column type is C04's business: a parameter here -/
 abbrev Val := Bytes → Int → M GoVal
 
-/-- the row as C03's view has it: the stored BYTES of every column rendered by `val` — for an inline-compressed value the
-compressed bytes, for an out-of-line one nil (C03 is about which bytes belong to a column).  Equal to `storedRow` when no
-value of the row is compressed or out of line (`storedRow_inline`) -/
+/-- the row as C03's view has it: the value of every column as the tuple's own bytes give it, rendered by `val` — for an
+inline-compressed value the original bytes, for an out-of-line one nil.  Equal to `storedRow` when no value of the row is
+out of line (`storedRow_inline`) -/
 def rowOf (val : Val) (cols : List Col) (r : RowV) : DRow :=
   match rowView val cols r with
   | .ok ps => ps
   | .error _ => []
 
-/-- the original bytes of a compressed / out-of-line datum as the cluster records them -/
+/-- the original bytes of an out-of-line datum as the cluster records them -/
 def detoastOf (tbl : List (Datum × Bytes)) (d : Datum) : Bytes := (tbl.lookup d).getD []
 
-/-- **what was stored** in a column: the payload of a plain value, the C string, and for a value PostgreSQL compressed in
-line or moved to the TOAST relation the ORIGINAL bytes (`detoast`), rendered by `val` -/
+/-- **what was stored** in a column: the payload of a plain value, the C string, for a value PostgreSQL compressed in
+line the ORIGINAL bytes (what its stream stands for) and for one moved to the TOAST relation the original bytes the
+cluster records (`detoast`), rendered by `val` -/
 def storedVal (val : Val) (tbl : List (Datum × Bytes)) (c : Col) : Datum → M GoVal
   | .fixed bs => val bs c.typid
   | .short p => val p c.typid
   | .long p => val p c.typid
-  | .compressed raw => val (detoastOf tbl (.compressed raw)) c.typid
+  | .compressed z => val z.original c.typid
   | .external body => val (detoastOf tbl (.external body)) c.typid
   | .cstr p => pure (.str p)
 
@@ -632,16 +633,14 @@ def lookupName {α} (name : α → Bytes) (l : List α) (n : Bytes) : Option (Op
 def nameOK (n : Bytes) : Prop := 1 ≤ n.length ∧ n.length ≤ 63 ∧ (0 : UInt8) ∉ n
 instance (n : Bytes) : Decidable (nameOK n) := by unfold nameOK; infer_instance
 
-/-- neither compressed in line nor out of line -/
+/-- not out of line: the value can be read from the tuple alone (plain, or compressed in line — read since fixes/rows/09) -/
 def inlineDatum : Option Datum → Bool
   | some (.external _) => false
-  | some (.compressed _) => false
   | _ => true
 
-/-- the cluster records the original bytes of the datum if it is compressed or out of line -/
+/-- the cluster records the original bytes of the datum if it is out of line -/
 def detoastKnown (tbl : List (Datum × Bytes)) : Option Datum → Bool
   | some (.external b) => (tbl.lookup (.external b)).isSome
-  | some (.compressed r) => (tbl.lookup (.compressed r)).isSome
   | _ => true
 
 def pagesFit (pages : List (List Tuple)) : Prop := ∀ ts ∈ pages, pageNeed ts ≤ 8192
@@ -713,8 +712,8 @@ def Cluster.MapWF (c : Cluster) : Prop :=
     pagesFit (p.2.att.map fun pg => pg.map fun s => formRow (pgAttributeCols c.layout) (attrValsM c.layout p.2.missing s.val) s.infomask)
 instance (c : Cluster) : Decidable c.MapWF := by unfold Cluster.MapWF; infer_instance
 
-/-- no row of a table that `o` dumps with its rows holds an inline-compressed or out-of-line value (finding A02 is the
-negation) -/
+/-- no row of a table that `o` dumps with its rows holds an OUT-OF-LINE value (18-byte TOAST pointer; finding A02 is the
+negation).  Inline-compressed values are no longer excluded: ReadVarlena decompresses them (fixes/rows/09). -/
 def A02Free (d : DbContent) (o : Options) : Prop :=
   o.listOnly = false → ∀ r ∈ d.cls.live, selectedRel o r = true → ∀ pages, d.heaps.lookup r.filenode = some pages →
     ∀ pg ∈ pages, ∀ row ∈ pg, row.vals.all inlineDatum = true
